@@ -28,6 +28,13 @@ Record tickobs := mktick { t_seq : nat; t_delivered : bool; t_done : nat }.  (* 
 Record batchobs := mkbatch { b_ids : list nat; b_start : nat; b_end : nat }. (* one call of the execute function *)
 Record opobs := mkop { p_nb : nat; p_guarded : bool; p_starts : nat; p_stops : nat }. (* after each script op *)
 
+(* LessExecutor stream: threshold, then (reading of the clock at the call, was the task executed) per DoOrDiscard;
+   very large Metrics period: tasks added, then per executed period (tasks received, report count, duration received
+   in ms, report average * count) *)
+Inductive auxcase :=
+| ALess (threshold : Z) (calls : list (Z * bool))
+| ABigStat (added : Z) (periods : list (Z * Z * Z * Z)).
+
 (* stat.Metrics: what Execute received besides the tasks, and the StatReport written for it *)
 Record repobs := mkrep { r_drops : nat; r_dur_ms : Z; r_count : Z; r_rdrops : nat; r_sum_ms : Z;
                          r_written : bool (* a report writer was installed when the period was executed *) }.
@@ -55,7 +62,8 @@ Record case := mkcase {
                                         the small-case observations are ignored *)
   c_ivl : list Z;                    (* observed flush interval(s), ns: the executor's field, and what the flusher
                                         asked its ticker for (if it started) *)
-  c_ivl_exp : Z                      (* the interval the executor was configured with / the documented default *)
+  c_ivl_exp : Z;                     (* the interval the executor was configured with / the documented default *)
+  c_aux : option auxcase             (* Some: a LessExecutor stream / a very large Metrics period; all else is ignored *)
 }.
 
 (* documented defaults: 1000 tasks per bulk batch, 1 MiB per chunk, flush every second.  Written here as the
@@ -407,11 +415,54 @@ Definition big_spec_ok (g : bigcase) : bool :=
       big_ticks_ok g ends (g_ticks g)
   end.
 
+(* ---------- LessExecutor (lessexecutor.go): at most one execution per threshold ---------- *)
+Fixpoint less_model (thr last : Z) (calls : list (Z * bool)) : bool :=
+  match calls with
+  | [] => true
+  | (now, ran) :: r => let (x, last') := less_step thr last now in Bool.eqb x ran && less_model thr last' r
+  end.
+
+(* property: the first task is always executed; afterwards a task is discarded while less than the threshold has
+   passed since the last execution and executed once more than the threshold has passed (at exactly the threshold
+   either is allowed); `le` = time of the last execution *)
+Fixpoint less_spec (thr : Z) (le : option Z) (calls : list (Z * bool)) : bool :=
+  match calls with
+  | [] => true
+  | (now, ran) :: r =>
+      match le with
+      | None => ran && less_spec thr (Some now) r
+      | Some l =>
+          (if now - l <? thr then negb ran else if thr <? now - l then ran else true) &&
+          less_spec thr (if ran then Some now else le) r
+      end
+  end.
+
+Definition aux_model_ok (a : auxcase) : bool :=
+  match a with
+  | ALess thr calls => less_model thr 0 calls
+  | ABigStat added periods => (fold_right (fun p acc => fst (fst (fst p)) + acc) 0 periods =? added)
+  end.
+
+Definition aux_spec_ok (a : auxcase) : bool :=
+  match a with
+  | ALess thr calls => less_spec thr None calls
+  | ABigStat added periods =>
+      (* every task of the period reaches Execute and is accounted in that period's report *)
+      (fold_right (fun p acc => fst (fst (fst p)) + acc) 0 periods =? added) &&
+      forallb (fun p => match p with (recv, cnt, dur, sum) => (cnt =? recv) && (sum =? dur) end) periods
+  end.
+
 Definition model_ok (c : case) : bool :=
-  match c_big c with Some g => big_model_ok g | None => small_model_ok c end.
+  match c_aux c with
+  | Some a => aux_model_ok a && negb (c_hung c)
+  | None => match c_big c with Some g => big_model_ok g | None => small_model_ok c end
+  end.
 
 Definition spec_ok (c : case) : bool :=
-  ivl_ok c && match c_big c with Some g => big_spec_ok g | None => small_spec_ok c end.
+  match c_aux c with
+  | Some a => aux_spec_ok a && negb (c_hung c)
+  | None => ivl_ok c && match c_big c with Some g => big_spec_ok g | None => small_spec_ok c end
+  end.
 
 (* input validity: unique task ids, a threshold of at least 1 *)
 Definition hyp_ok (c : case) : bool := nodup_nat (all_ids c) && (1 <=? c_max c).
